@@ -152,10 +152,10 @@ theorem dropped_iff_missing (frags : List Fragment) (fuel : Nat) (o : Operation)
       | none => rw [hf] at hbad; simp at hbad
       | some f =>
         rw [hf] at hbad
+        simp only at hbad
         have : ¬ ∀ x ∈ directSels f.sel, x ∈ related := by
           intro hall
-          rw [(subset_iff _ _).mpr hall] at hbad
-          simp at hbad
+          exact hbad ((subset_iff _ _).mpr hall)
         simp only [not_forall] at this
         obtain ⟨x, hx, hnx⟩ := this
         exact ⟨x, reach_step (hst u (Or.inr hu)) hf ⟨x, hx, .refl⟩, hnx⟩
@@ -393,7 +393,7 @@ def exSummary : Except GenErr (Doc × St) → Option (List String × List Nat ×
 set_option maxRecDepth 100000 in
 /-- the hypotheses of `C02_partial` are satisfiable by a non-trivial input: fragments A → B are sent sorted,
     `node { … }` got the automatic `__typename` (mark 3), neither trigger fires -/
-example : exSummary (addOperation exEnv 20 exOp []) = some (["A", "B"], [3], ["A"], [], false, false) := by decide
+example : exSummary (addOperation exEnv 20 exOp []) = some (["A", "B"], [3], ["A"], [], false, false) := by rfl
 
 example : Valid exEnv exOp := by
   refine ⟨by decide, ?_, by decide⟩
